@@ -270,6 +270,13 @@ func NewExec(id uint64, p *prog.Program, sc *prog.Scenario, quiet bool) *Exec {
 	x := &Exec{ID: id, Prog: p, Sc: sc, Quiet: quiet}
 	base := context.WithValue(context.Background(), execKey{}, x)
 	x.ctx, x.cancelFn = context.WithCancel(base)
+	if sc.FarDeadline {
+		// a context with a deadline (far away) and a parent that can be cancelled
+		var c2 context.CancelFunc
+		parent, cancel := x.ctx, x.cancelFn
+		x.ctx, c2 = context.WithDeadline(parent, time.Now().Add(time.Hour))
+		x.cancelFn = func() { cancel(); c2() }
+	}
 	x.Results = make([]uint64, len(sc.Sentinels))
 	x.resultSet = make([]bool, len(sc.Sentinels))
 	x.gate = make(chan struct{})
@@ -379,6 +386,30 @@ func (e *CallErr) Error() string {
 type FieldErrors []string
 
 func (f FieldErrors) Error() string { return strings.Join(f, "; ") }
+
+// CallErrVal is a comparable error of struct (not pointer) type.
+type CallErrVal struct {
+	Exec uint64
+	Fn   int
+	Key  uint64
+}
+
+func (e CallErrVal) Error() string {
+	return fmt.Sprintf("exec %d: function %d (key %d) failed [value]", e.Exec, e.Fn, e.Key)
+}
+
+// ErrValue builds the error a failing call returns: unique per (exec, fn, key).
+func ErrValue(exec uint64, fn int, key uint64, kind int) error {
+	switch kind {
+	case 1:
+		return CallErrVal{Exec: exec, Fn: fn, Key: key}
+	case 2:
+		return FieldErrors{fmt.Sprintf("exec %d", exec), fmt.Sprintf("fn %d", fn), fmt.Sprintf("key %d", key), "returned"}
+	case 3:
+		return fmt.Errorf("function %d of exec %d failed: %w", fn, exec, &CallErr{Exec: exec, Fn: fn, Key: key})
+	}
+	return &CallErr{Exec: exec, Fn: fn, Key: key}
+}
 
 // PanicStruct is the custom panic value kind.
 type PanicStruct struct {
@@ -533,7 +564,7 @@ func (x *Exec) Call(ctx context.Context, fn int, args ...uint64) *Ret {
 	case prog.OFalse:
 		ev.End = prog.OFalse
 	case prog.OErr:
-		ret.Err = &CallErr{Exec: x.ID, Fn: fn, Key: key}
+		ret.Err = ErrValue(x.ID, fn, key, o.ErrKind)
 		ev.Err = ret.Err
 		ev.End = prog.OErr
 	case prog.OPanic:
@@ -580,7 +611,7 @@ func (x *Exec) quietCall(ctx context.Context, fn int, key uint64, f prog.FnInfo,
 			ret.outs = append(ret.outs, prog.H(x.ID, fn, i, args))
 		}
 	case prog.OErr:
-		ret.Err = &CallErr{Exec: x.ID, Fn: fn, Key: key}
+		ret.Err = ErrValue(x.ID, fn, key, o.ErrKind)
 	case prog.OPanic:
 		panic(PanicValue(x.ID, fn, key, o.PanicKind))
 	case prog.OGoexit:
